@@ -23,6 +23,7 @@ GFA1 = {
     "l14": ("L\tC\t+\tA\t-\t1D2M", ["sA", "sC"]),                # ... and the same link in its complement form                   # hairpin whose CIGAR is not its own complement
     "l15": ("L\tB\t-\tC\t-\t1S2M1N1M", ["sB", "sC"]),           # the GFA1-only operations S and N: rewritten (not only swapped) by the complement
     "c1": ("C\tA\t+\tC\t+\t1\t2M", ["sA", "sC"]),
+    "c1b": ("C\tA\t+\tC\t+\t1\t2M", ["sA", "sC"]),                # a second record with the fields of c1
     "c2": ("C\tB\t-\tC\t+\t0\t*\tID:Z:cn", ["sB", "sC"]),
     "p1": ("P\tp1\tA+,B+\t2M", ["l1"]),
     "p2": ("P\tp2\tA+,B+,C+\t*", ["l1", "l7"]),
@@ -32,6 +33,8 @@ GFA1 = {
     "p6": ("P\tp6\tB+,C+\t2M", ["l9"]),                    # the link is written in the complement form of this path's direction
     "p7": ("P\tp7\tC-,B-\t2M", ["l9"]),
     "p10": ("P\tp10\tA+,A+\t2M", ["l5"]),                  # over a self-link that joins the two ends of one segment
+    "p11": ("P\tp11\tA-,A-\t2M", ["l5"]),                 # the same self-link walked in its complement form
+    "p12": ("P\tp12\tB+,A-\t3M", ["l2"]),                 # a link without overlap, walked in its complement form by a path which states one
     "p8": ("P\tp8\tC+,C-\t2M1I", ["l12"]),                 # traverses the hairpin as written
     "p9": ("P\tp9\tC+,C-\t1D2M", ["l12"]),                 # traverses the hairpin in its complement form
     "h1": ("H\tVN:Z:1.0", []),
@@ -52,27 +55,34 @@ GFA2 = {
     "sC": ("S\tC\t8\t*", []),
     "e1": ("E\te1\tA+\tB+\t6\t8$\t0\t2\t2M", ["sA", "sB"]),
     "e2": ("E\t*\tA+\tB-\t6\t8$\t6\t8$\t*", ["sA", "sB"]),
+    "e2b": ("E\t*\tA+\tB-\t6\t8$\t6\t8$\t*", ["sA", "sB"]),        # a second record with the fields of e2: two lines, equal as values
     "e3": ("E\te3\tA-\tB+\t0\t2\t0\t2\t2M", ["sA", "sB"]),
     "e4": ("E\te4\tB+\tC+\t0\t8$\t2\t6\t*", ["sB", "sC"]),        # B contained in C
     "e5": ("E\te5\tA+\tC+\t2\t4\t3\t5\t2M", ["sA", "sC"]),        # internal
     "e6": ("E\te6\tB+\tC+\t6\t8$\t0\t2\t2M", ["sB", "sC"]),
     "e7": ("E\te7\tA+\tA+\t6\t8$\t0\t2\t2M", ["sA"]),             # self dovetail
     "e8": ("E\te8\tA+\tB+\t5\t8$\t0\t3\t3M", ["sA", "sB"]),       # parallel to e1
+    "e9": ("E\te9\tC+\tA+\t0\t2\t5\t8$\t2M1I", ["sA", "sC"]),   # a dovetail from A+ to C+ written with the segment it enters first (sid1 is not the 'from' segment)
     "g1": ("G\tg1\tA+\tB-\t10\t*", ["sA", "sB"]),
     "g2": ("G\t*\tB+\tC+\t5\t2", ["sB", "sC"]),
     "f1": ("F\tA\tx+\t0\t8$\t0\t8\t*", ["sA"]),
     "f2": ("F\tB\ty-\t0\t4\t0\t4\t*", ["sB"]),
+    "f3": ("F\tB\tx-\t4\t8$\t0\t4\t*", ["sB"]),             # with f1: the same external sequence in both orientations
     "o1": ("O\to1\tA+ B+", ["e1"]),
     "o2": ("O\to2\tA+ e1+ B+", ["e1"]),
     "o3": ("O\to3\to1+ C+", ["o1", "e6"]),
     "o4": ("O\to4\tB- e1- A-", ["e1"]),
     "o5": ("O\to5\te1- e3+", ["e1", "e3"]),          # starts with a reversed edge
+    "o6": ("O\to6\tA+ e9+ C+", ["e9"]),
+    "o7": ("O\to7\tC- e9- A-", ["e9"]),
     "u1": ("U\tu1\tA B", ["sA", "sB"]),
     "u2": ("U\tu2\te1", ["e1"]),
     "u3": ("U\tu3\to1", ["o1"]),
     "u4": ("U\tu4\tu1 C", ["u1", "sC"]),
     "u5": ("U\tu5\tg1 A", ["g1"]),
     "u6": ("U\tu6\tg1 A g1", ["g1"]),                       # the same gap listed twice
+    "u7": ("U\tu7\tg1", ["g1"]),                            # a set of one gap (nothing is left of it when the gap goes)
+    "u8": ("U\tu8\tu7 A", ["u7", "sA"]),                  # ... and a set over that set
     "ua": ("U\tus\tA", ["sA"]),
     "ub": ("U\tus\tB\txx:i:1", ["sB"]),
     "uc": ("U\tus\tC\tch:A:c\tjs:J:[1]", ["sC"]),              # tags whose datatype is not the default one of their value
